@@ -64,19 +64,22 @@ static bool inside_tri(const double *x, const double *y, size_t a, size_t b, siz
 // n = 3 or 4 points on the 3x3 lattice {0,1,2}^2 scaled by 1000 (code = base-9 digits, one per point; enumerated by the runner:
 // every non-degenerate triangle / convex quadrilateral of the lattice); nodal values and query point are symbolic.
 // kind 0: nodal values are honoured, value within [min,max]; kind 1: affine data => affine interpolant
-extern "C" void h_c11_surface(unsigned long n, unsigned long kind, unsigned long code)
+extern "C" void h_c11_surface(unsigned long n, unsigned long kind, unsigned long code, unsigned long small)
 {
+  // small = 1: the same shapes with a lattice spacing of 1/1024 (triangle areas around 1e-6, e.g. closely spaced points given in radians): tolerances that
+  // are meant to be relative to the triangle size must not blow up there
+  const double spacing = small ? 1.0 / 1024.0 : 1000.0, thr = small ? 1e-7 : 1.0;
   double x[4], y[4], v[4];
   std::pair<std::vector<double>, std::vector<double>> vp;
   for (unsigned i = 0; i < n; ++i)
     {
       const unsigned long d = code % 9; code /= 9;
-      x[i] = 1000.0 * double(d % 3); y[i] = 1000.0 * double(d / 3); v[i] = sym_f64("v");
+      x[i] = spacing * double(d % 3); y[i] = spacing * double(d / 3); v[i] = sym_f64("v");
       vp.first.push_back(v[i]); vp.second.push_back(x[i]); vp.second.push_back(y[i]);
     }
   auto cr = [&](unsigned a, unsigned b, unsigned c) { return (x[b] - x[a]) * (y[c] - y[b]) - (y[b] - y[a]) * (x[c] - x[b]); };
-  if (n == 3) sym_assume(cr(0, 1, 2) > 1 || cr(0, 1, 2) < -1);                                 // non-degenerate (area well above the tolerance band)
-  else sym_assume((cr(0,1,2) > 1 && cr(1,2,3) > 1 && cr(2,3,0) > 1 && cr(3,0,1) > 1) || (cr(0,1,2) < -1 && cr(1,2,3) < -1 && cr(2,3,0) < -1 && cr(3,0,1) < -1));   // convex position, listed around the hull
+  if (n == 3) sym_assume(cr(0, 1, 2) > thr || cr(0, 1, 2) < -thr);                                 // non-degenerate (area well above the tolerance band)
+  else sym_assume((cr(0,1,2) > thr && cr(1,2,3) > thr && cr(2,3,0) > thr && cr(3,0,1) > thr) || (cr(0,1,2) < -thr && cr(1,2,3) < -thr && cr(2,3,0) < -thr && cr(3,0,1) < -thr));   // convex position, listed around the hull
   double alpha = 0, beta = 0, gamma = 0;
   if (kind == 1)
     {
@@ -103,7 +106,8 @@ extern "C" void h_c11_surface(unsigned long n, unsigned long kind, unsigned long
     {
       for (unsigned i = 0; i < n; ++i) if (px == x[i] && py == y[i]) sym_assert(sym_eq(value, v[i]), "at a listed point the listed value is used");
       // the code accepts points up to 1e4*eps (absolute, in area units) outside a triangle: the bound holds up to the corresponding extrapolation
-      const double slack = 1e-9 * (hi - lo);
+      // (the tolerance on s and t is absolute, 1e4*eps in area units: relative to a triangle of the small lattice that is 2.3e-6, hence the wider slack there)
+      const double slack = (small ? 1e-5 : 1e-9) * (hi - lo);
       sym_assert(value >= lo - slack && value <= hi + slack, "the interpolated value lies between the smallest and largest nodal value");
     }
   sym_reach("end");
